@@ -132,9 +132,38 @@ def gen(rng, tier, index):
             steps.append(['advance', gc + 2])
     pol = policy.draw_policy(rng, est_len=200, stalls=False)
     pol['gran'] = 'sync'
+    style = rng.choice(['plain', 'plain', 'mixed', 'overlap'])
+    _restyle(steps, NAME_STYLES[style])
     return {'family': family, 'policy': pol, 'gc': gc, 'steps': steps,
-            'n_bulbs': n_bulbs,
+            'n_bulbs': n_bulbs, 'names': style,
             'settings': {'default_num_lights': rng.choice([None, None, 5])}}
+
+
+# Name alphabets (injective renamings of the generator's working names):
+# mixed case, blanks and common prefixes; names shared between lights,
+# groups and locations.
+NAME_STYLES = {
+    'plain': {},
+    'mixed': {'Amp': 'amp', 'Bed': 'Bed', 'Cot': 'bed lamp', 'Den': 'Zed 2',
+              'A': 'a', 'Zed': 'Zed', 'Bee': 'bee',
+              'G1': 'Zoo', 'G2': 'kitchen', 'G3': 'Kitchen 2',
+              'L1': 'Work', 'L2': 'home', 'L3': 'attic'},
+    'overlap': {'G1': 'Amp', 'G2': 'Bed', 'L1': 'Amp', 'L2': 'G3'},
+}
+
+
+def _restyle(steps, ren):
+    if not ren:
+        return
+    for s in steps:
+        if s[0] == 'pop':
+            s[1] = [None if p is None else
+                    [ren.get(p[0], p[0]),
+                     ren.get(p[1], p[1]) if p[1].startswith('G') else p[1],
+                     ren.get(p[2], p[2]) if p[2].startswith('L') else p[2]]
+                    for p in s[1]]
+        elif s[0] == 'step':
+            s[2] = ren.get(s[2], s[2])
 
 
 def _unique(pop, rng):
